@@ -22,6 +22,7 @@ import Cog.Drv.TotalDrv
 import Cog.Drv.SrcDenDrv
 import Cog.Drv.FrontDrv
 import Cog.Drv.FrontOaDrv
+import Cog.Drv.KeepsDrv
 open Cog.Drv
 
 def handle (line : String) : String :=
@@ -79,6 +80,8 @@ def handleIO (line : String) : IO String := do
   | "oafdef" :: rest => oafdefLine (" ".intercalate rest)
   | "oafront" :: rest => oafrontLine (" ".intercalate rest)
   | "oafdoc" :: rest => oafdocLine (" ".intercalate rest)
+  | "jsfkeeps" :: rest => jsfkeepsLine (" ".intercalate rest)
+  | "jsfc08" :: rest => jsfc08Line (" ".intercalate rest)
   | "srcpy" :: rest => srcpyLine (" ".intercalate rest)
   | "godefaults" :: rest => godefaultsLine (" ".intercalate rest)
   | "pydefaults" :: rest => pydefaultsLine (" ".intercalate rest)
